@@ -16,7 +16,7 @@ EXTENDS CmdGeneric, CmdString, CmdHash, CmdList, CmdSet, CmdZSet, Mem
 
 Modelled == {"SET", "MSET", "GET", "MGET", "DEL", "PERSIST", "EXPIRETIME", "PEXPIRETIME", "TTL", "PTTL",
              "EXPIRE", "PEXPIRE", "EXPIREAT", "PEXPIREAT", "INCR", "DECR", "INCRBY", "DECRBY",
-             "INCRBYFLOAT", "RENAME", "FLUSHDB", "FLUSHALL", "GETDEL", "GETEX", "TYPE",
+             "INCRBYFLOAT", "RENAME", "FLUSHDB", "FLUSHALL", "SWAPDB", "GETDEL", "GETEX", "TYPE",
              "APPEND", "SETRANGE", "STRLEN", "GETRANGE", "SUBSTR"}
 
 \* a command naming a key whose current value is outside the model is not judged
@@ -48,6 +48,7 @@ Exec(C, a, g) ==
       [] op = "RENAME"      -> XRename(C, a)
       [] op = "FLUSHDB"     -> XFlush(C, a, FALSE)
       [] op = "FLUSHALL"    -> XFlush(C, a, TRUE)
+      [] op = "SWAPDB"      -> XSwapDb(C, a)
       [] op = "GETDEL"      -> XGetDel(C, a)
       [] op = "GETEX"       -> XGetEx(C, a)
       [] op = "TYPE"        -> XType(C, a)
@@ -65,6 +66,7 @@ Exec(C, a, g) ==
 RelevantDevs(a) ==
     LET op == a[1].s IN
     CASE op \in {"SET", "MSET", "APPEND"} -> {"AdaptCanon"}
+      [] op = "SWAPDB" -> {"SwapDbConnsOnly"}
       [] op \in HashOps -> HashDevs(a)
       [] op \in ListOps -> ListDevs(a)
       [] op \in SetOps  -> SetDevs(a)
